@@ -18,7 +18,8 @@ DEMO_RS=$(ls "$OUT"/demo/*.rs 2>/dev/null | head -1)
 CRATE=$(grep -o "cargo test -p [a-z-]*" "$OUT/demo/README.txt" 2>/dev/null | head -1 | awk '{print $4}')
 [ -z "$CRATE" ] && CRATE=searchlite-core
 mkdir -p "$WT/$CRATE/tests"; cp "$DEMO_RS" "$WT/$CRATE/tests/seeded_demo.rs"
-run_demo() { cargo test -p "$CRATE" --offline -j 6 --test seeded_demo >>"$LOG" 2>&1; }
+FEAT=""; [ "$ID" = "C29" ] && FEAT="--features vectors"
+run_demo() { cargo test -p "$CRATE" $FEAT --offline -j 6 --test seeded_demo >>"$LOG" 2>&1; }
 echo "== demo on clean tree" >>"$LOG"; run_demo; CLEAN=$?
 git apply "$OUT/patch.diff" || { echo "patch does not apply to HEAD"; exit 2; }
 echo "== demo with patch" >>"$LOG"; run_demo; PATCHED=$?
